@@ -3210,8 +3210,9 @@ func rangeInt(n *node) {
 	next := n.exec
 	index := index0
 	ixn.exec = func(f *frame) bltn {
-		f.data[index2] = value(f) // set max
-		f.data[index].SetInt(-1)  // assing index value
+		// The bound is evaluated once: keep a copy, not a reference to the variable.
+		f.data[index2] = copyValue(value(f)) // set max
+		f.data[index].SetInt(-1)             // assing index value
 		return next
 	}
 }
